@@ -1543,8 +1543,13 @@ impl FixtureDatabase {
         let mut visited: HashSet<String> = HashSet::new();
         let mut seen_cycles: HashSet<String> = HashSet::new(); // Deduplicate cycles
 
-        // Iterative DFS using explicit stack
-        for start_fixture in dep_graph.keys() {
+        // Iterative DFS using explicit stack.
+        // Visit the roots in sorted order: HashMap iteration order differs from one
+        // computation to the next, and with it which cycles were reported and on which
+        // fixture they were anchored.
+        let mut roots: Vec<&String> = dep_graph.keys().collect();
+        roots.sort();
+        for start_fixture in roots {
             if visited.contains(start_fixture) {
                 continue;
             }
